@@ -78,6 +78,11 @@ CHECKS = {
    note=TB + "np.linalg.eigh inside the PSD projection is external. Fits whose first cycle exhausts max_proj without converging are outside the property's quantifier ('max_proj large enough') and are counted, not judged; the full projected-gradient trajectory is not replayed (only its helper functions and the loop invariant).",
    technique="Lean 4 proof (projection identities, abstract loop invariant) + Float twins of the helper functions + oracle on real fits",
    ref="§6 C14"),
+ 'C15': dict(
+   text="Theorems for EVERY batch sequence (the random batches are an oracle argument of the model): after any number of stochastic dual-averaging steps the current and the best-checkpoint weights are all ≥ 0 (γ > 0 makes the AdaGrad scale negative, the proximal term min(avg+β,0) is ≤ 0); the strict-improvement bookkeeping keeps a checkpoint with the lowest objective (first among ties: bestIndex_spec); LᵀL = Σ_i w_i b_i b_iᵀ in the low-rank branch and (through the C20 conversion theorem) in the full-rank branch; that matrix is symmetric PSD for w ≥ 0; row count and warning of the low-rank case. The theorems are about the definitions the compiled Float twin executes. Tie: real SCML / SCML_Supervised fits (bases triplet_diffs / lda / array) with the basis, dist_diff matrix and best weights captured in-process; the batch matrix is reproduced with the same NumPy call and the twin must return the same best-checkpoint weights (1e-8); oracle: weights ≥ 0, M = Σ w b bᵀ, generated bases have n_basis unit-norm rows, shapes and warning.",
+   note=TB + "k-means, LDA and eigh inside the two basis generators are external (only their post-conditions — count and unit norm — are checked); numpy's RandomState(seed).randint is trusted to reproduce the batches.",
+   technique="Lean 4 proof (invariants for all batch sequences, matrix form) + Float-twin replay with reproduced batches",
+   ref="§6 C15"),
 }
 
 NOT_YET = {}
